@@ -16,7 +16,7 @@ from collections import Counter, defaultdict
 import common
 from common import BUILD, COQ, VERIF, Infra, SplitMix, Lock, repo_hash, verif_hash, run
 
-NSCHED = 60
+NSCHED = 62
 TARGET_SCHED = os.path.join(BUILD, "target_sched")
 FAMILY_JSON = os.path.join(BUILD, "sched_family.json")
 HS = os.path.join(VERIF, "harness_sched")
@@ -60,6 +60,7 @@ def gen_worlds(rng, n):
     return out
 
 
+ALL_ARCHETYPES = " ".join("%d:1" % m for m in range(1, 16))      # every non-empty shape over the four components
 FIXED_WORLDS = ["3:1", "3:2 1:1 2:1", "15:2", "1:1 2:1 4:1 8:1", "5:1 10:1 15:1"]
 
 
@@ -68,7 +69,7 @@ def gen_cases(seed, tier, fam):
     nworlds = 3 if tier == "quick" else 12
     cases = []
     for k in range(len(fam)):
-        worlds = [""] + [rng.choice(FIXED_WORLDS)] + gen_worlds(rng, nworlds)
+        worlds = ["", ALL_ARCHETYPES] + [rng.choice(FIXED_WORLDS)] + gen_worlds(rng, nworlds)
         for spec in worlds:
             runs = [(1, 0, 4), (2, 0, 4), (3, rng.next() & 0xFFFFFFFF, 4), (0, 0, 1), (0, 0, 4)]
             if tier != "quick":
@@ -307,6 +308,19 @@ def oracle(case, ob, sched):
     if _res(ob.get("final")) != _res(ob.get("ref")):
         fails.append(("C15", "resources after run_schedule differ from those after the sequential run (a write through a system's "
                              "resource view was lost or misplaced): %s vs %s" % (_res(ob.get("final")), _res(ob.get("ref")))))
+    # ... and what each system SAW through its resource views is what it sees in the sequential run (a write through
+    # one view is visible through all others afterwards): the accumulators of the tasks that view resources
+    try:
+        a1 = [int(x) for x in re.findall(r"\d+", ob.get("accs") or "")]
+        a2 = [int(x) for x in re.findall(r"\d+", ob.get("refaccs") or "")]
+    except Exception:  # noqa: BLE001
+        a1 = a2 = []
+    if len(a1) == len(a2) == n:
+        for t in range(n):
+            if sched[t]["res"] and a1[t] != a2[t]:
+                fails.append(("C15", "task %d views resources %s and observed something else than in the sequential run "
+                                     "(accumulator %d vs %d)" % (t, sched[t]["res"], a1[t], a2[t])))
+                break
     # C08: tasks under the two sides of one join must not share a written address
     touched = defaultdict(lambda: defaultdict(bool))
     for t, addr, w in ob["access"]:
@@ -373,8 +387,27 @@ Definition out (r : option (list (list nat) * sp)) : list nat :=
 """
 
 
-def model_eval(queries, fam, workdir):
+def reference_coq_dir(workdir):
+    """The scheduling model compiled against the COMMITTED tables (Gen/Tables.snapshot: the ones the theorems were last
+    proved about) in a scratch directory.  Used only when the regenerated tables differ from them."""
+    d = os.path.join(workdir, "coqsnap")
+    os.makedirs(os.path.join(d, "Model"), exist_ok=True)
+    os.makedirs(os.path.join(d, "Gen"), exist_ok=True)
+    import shutil
+    for rel in ("Model/Base.v", "Model/Kinds.v", "Model/Sched.v", "Model/SchedSpec.v"):
+        shutil.copy(os.path.join(COQ, rel), os.path.join(d, rel))
+    shutil.copy(os.path.join(COQ, "Gen", "Tables.snapshot"), os.path.join(d, "Gen", "Tables.v"))
+    shutil.copy(os.path.join(COQ, "Gen", "Facts.snapshot"), os.path.join(d, "Gen", "Facts.v"))
+    for rel in ("Model/Base.v", "Model/Kinds.v", "Gen/Tables.v", "Model/Sched.v", "Model/SchedSpec.v"):
+        p = run(["timeout", "600", "coqc", "-noglob", "-Q", d, "Brood", os.path.join(d, rel)], cwd=d, check=False, timeout=660)
+        if p.returncode != 0:
+            return None, p.stdout[-2000:]
+    return d, None
+
+
+def model_eval(queries, fam, workdir, coqdir=None):
     """queries: list of (k, shapes tuple).  Returns {query: (stages, seq) | None}."""
+    COQ_ = coqdir or COQ
     os.makedirs(workdir, exist_ok=True)
     path = os.path.join(workdir, "cases.v")
     with open(path, "w") as f:
@@ -385,7 +418,7 @@ def model_eval(queries, fam, workdir):
             f.write("Eval vm_compute in out (run_schedule %d %d sch%d [%s]).\n"
                     % (NC, NR, k, "; ".join(coq_shape(s) for s in shapes)))
     with Lock("coq"):
-        p = run(["timeout", "900", "coqc", "-noglob", "-Q", COQ, "Brood", path], cwd=workdir, check=False, timeout=960)
+        p = run(["timeout", "900", "coqc", "-noglob", "-Q", COQ_, "Brood", path], cwd=workdir, check=False, timeout=960)
     if p.returncode != 0:
         return None, p.stdout[-3000:]
     outs = re.findall(r"=\s*(\[[^\]]*\])\s*:\s*list nat", p.stdout)
@@ -469,7 +502,15 @@ def engine(seed, tier):
     model = None
     if model_err is None:
         model, model_err = model_eval(queries, fam, os.path.join(BUILD, "run", "sched-%s-%s" % (seed, tier)))
-    r = {"fam": fam, "cases": cases, "obs": obs, "model": model, "model_err": model_err, "build_err": build_err,
+    # the tables changed: what would the run look like with the tables the theorems were proved about?
+    ref_model = None
+    if tstatus == "regenerated-changed":
+        wd = os.path.join(BUILD, "run", "sched-%s-%s-ref" % (seed, tier))
+        os.makedirs(wd, exist_ok=True)
+        d, err = reference_coq_dir(wd)
+        if d:
+            ref_model, _ = model_eval(queries, fam, wd, coqdir=d)
+    r = {"fam": fam, "cases": cases, "obs": obs, "model": model, "model_err": model_err, "build_err": build_err, "ref_model": ref_model,
          "missing": missing, "translator": tstatus, "queries": queries, "wall": time.time() - t0, "cached": False}
     with open(cpath, "wb") as f:
         pickle.dump(r, f)
